@@ -190,7 +190,7 @@ Definition sp_missing (ps : props) : bool :=
    old content of the new id was dropped, exactly as an import would) *)
 Definition sp_clone (sp : spec) (g g2 : N) : spec * res :=
   match sn (sget sp g) with
-  | [] => (sp, Err EAttr)
+  | [] => (sp, Err EQuery)
   | l => if existsb sp_missing l then (sput sp g2 empty_sg, Err EImport)
          else (sput sp g2 (mkSG (map (aset k_graphid (PV g2)) l) (se (sget sp g))), Ok RUnit)
   end.
@@ -249,12 +249,11 @@ Definition in_spec_scope (o : op) : bool :=
   end.
 
 (* where the two storage flavours are documented to differ: the one-graph-per-id store SKIPS an
-   import / clone onto an id that holds nodes (warning only) and treats a graph without nodes as an
-   existing empty graph (clone source) *)
+   import / clone onto an id that holds nodes (warning only) *)
 Definition in_disjoint_scope (sp : spec) (o : op) : bool :=
   match o with
   | OImport g _ => negb (sp_exists (sget sp g))
-  | OClone g g2 => sp_exists (sget sp g) && negb (sp_exists (sget sp g2))
+  | OClone g g2 => negb (sp_exists (sget sp g)) || negb (sp_exists (sget sp g2))
   | _ => true
   end.
 
@@ -343,7 +342,7 @@ Definition x_maintain (l : list xlink) (o : op) (r : res) : list xlink :=
   | ODelNode g n => if is_ok r then filter (fun x => negb (xlink_touches (g, Some n) x)) l else l
   | ODelGraph g | OImport g _ | OImportDirect g _ => filter (fun x => negb (xlink_in_graph g x)) l
   | OClone _ g2 => match r with
-                   | Err EAttr => l
+                   | Err EQuery => l
                    | _ => filter (fun x => negb (xlink_in_graph g2 x)) l
                    end
   | _ => l
